@@ -1561,7 +1561,15 @@ impl World {
             crypto::rec_set_phase(self.step_no as u64);
             let r = crate::oracles::lib_call(self, p, Some(g), "apply_pending_commit", |w| {
                 let mut group = w.parties[p].mems[g].group.take().unwrap();
-                let r = guarded(&prop, "apply_pending_commit", || group.apply_pending_commit());
+                // a third of the time through the entry point that also understands pending commits of older versions
+                let bc = mix(&[w.seed, w.step_no as u64, 0xbc]) % 3 == 0;
+                let r = guarded(&prop, "apply_pending_commit", || {
+                    if bc {
+                        group.apply_pending_commit_backwards_compatible()
+                    } else {
+                        group.apply_pending_commit()
+                    }
+                });
                 w.parties[p].mems[g].group = Some(group);
                 r
             });
